@@ -162,6 +162,43 @@ def work(job):
     return out
 
 
+def translator_validation(rp, seed, n):
+    """the interpreter on concrete vectors must agree with the compiled DocumentOrder (verif hook)"""
+    import random
+    rng = random.Random(seed)
+    done = 0
+    for _ in range(n):
+        k = rng.randrange(1, 4)
+        op = rng.choice(OPS)
+        m = rng.randrange(0, k + 1)
+        if op == "init_order" and m < k:
+            m = k
+        a = rng.choice(list(range(k)) + [None])
+        I = K.new_interp("debug")
+
+        def thunk(I):
+            ordering = K.mk_obj("DocumentOrder", K.INFO, order=SVec(), version=0)
+            items = []
+            for i in range(k + 1):
+                info = K.mk_obj("ContextInfo", K.INFO, id=i + 1, order_cache=(i + 1 if i < k else 0), order_version=0)
+                it = K.mk_obj("XmlElement", K.INFO, context=K.mk_obj("Context", K.INFO, info=info, ordering=ordering))
+                items.append(it)
+                if i < k:
+                    ordering.fields["order"].append(info)
+            args = [(a + 1) if a is not None else 9999] if op in ("set_order_after", "set_order_before") else []
+            I.try_repo_method(items[m], op, args)
+            return [I.try_repo_method(it, "order", []) for it in items]
+        paths = I.explore(thunk)
+        if len(paths) != 1 or paths[0]["kind"] != "ret":
+            raise common.Inconclusive("concrete order run: %s" % paths[:1])
+        pred = [int(x) for x in paths[0]["value"]]
+        rr = rp.run({"op": "order", "k": k, "what": op, "mover": m, "anchor": a})
+        if rr.get("keys") != pred:
+            raise common.Inconclusive("model mismatch on %s k=%d mover=%d anchor=%s: interpreter %s, real %s" % (op, k, m, a, pred, rr))
+        done += 1
+    return done
+
+
 def replay_case(rp, w):
     """through the DOM: <r> with k element children c0..; the operation is realised by insert_before / remove_child /
     append_child on them; the observed order is the order in which /r/* returns the children (sorted by order keys)"""
@@ -210,6 +247,12 @@ def main():
                   "outside": "which anchor the tree mutators choose (HasChildren::append / insert_before, attributes, subtree moves) and therefore the pre-order relation itself and query(edited) = query(re-parsed): item graph"}
     rep.assumptions += ["Weak::upgrade always succeeds (every entry's item is alive)", "the vector is valid before the step: attached infos in order, distinct non-zero ids, caches stale or correct",
                         "std models of engine/sx/kstd.py (Vec::insert/remove/push, Iterator::position)"]
+    try:
+        rep.tv_cases = translator_validation(rp, args.seed, 40 if args.tier == "quick" else 200)
+        rep.extra["translator_validation"] = "%d concrete order-vector steps: S-kernel == compiled DocumentOrder through the verif hook" % rep.tv_cases
+    except (common.Inconclusive, kernel.Unsupported) as e:
+        rep.inconclusive.append(str(e))
+        return rep.finish()
     jobs = []
     for k in range(1, kmax + 1):
         for op in OPS:
